@@ -288,7 +288,15 @@ theorem C14_map_lookup (s : MemStore) (k : Key) (g : Val) (m : List (Val × Nat)
     rcases List.getElem?_eq_some_iff.mp h with ⟨_, hh⟩; exact hh
   simp [MemStore.addMap, h, hm, hany, MemStore.getMap, MemStore.iterateMap, List.getElem?_set, hlt, List.find?_append, hfind]
 
+/-- **a rejected write is not a write**: when the declared type rejects the value (TypeError / OverflowError of the typed
+array) the operation raises and the store is exactly what it was — the written index and every other index read as before -/
+theorem C14_rejected_write (s : MemStore) (k : Key) (v : Val) (e : Err) (h : s.dtype.coerce v = .error e) :
+    (s.set k v).1 = s ∧ ((s.set k v).2 = .exc e ∨ (s.set k v).2 = .exc "IndexError") := by
+  by_cases hi : k.idx < s.state.length <;> simp [MemStore.set, hi, h]
+
 /-! non-vacuity -/
+example : ((MemStore.new .int none).run [.addKey [1, 0], .set [1, 0] (Val.flt 0.5), .get [1, 0], .isSet [1, 0]]) =
+    [.unit, .exc "TypeError", .notset, .bool false] := by decide
 example : ((MemStore.new .int none).run [.addKey [5, 0], .get [5, 0], .set [5, 0] (.int 7), .get [5, 0], .addKey [2, 0],
     .get [2, 0], .delKey [5, 0], .addKey [5, 0], .get [5, 0]]) =
     [.unit, .notset, .unit, .val (.int 7), .unit, .notset, .unit, .unit, .notset] := by decide
